@@ -1,1 +1,879 @@
-//! Worlds: the real contracts running in-process under cw-multi-test.
+//! Worlds: the real contracts running in-process under cw-multi-test, plus snapshot / balance
+//! helpers shared by every stateful check.
+
+use std::collections::BTreeMap;
+use std::panic::{catch_unwind, AssertUnwindSafe};
+
+use cosmwasm_std::{
+    coin, to_json_binary, Addr, Binary, BlockInfo, Coin, Decimal, Empty, Timestamp, Uint128, Uint64,
+};
+use cw20::{Cw20Coin, Cw20ExecuteMsg, MinterResponse};
+use cw_multi_test::{App, AppBuilder, AppResponse, BankKeeper, Contract, ContractWrapper, Executor};
+use serde::de::DeserializeOwned;
+use serde::Serialize;
+
+use white_whale_std::epoch_manager::epoch_manager::EpochConfig;
+use white_whale_std::fee::{Fee, VaultFee};
+use white_whale_std::pool_network::asset::{Asset, AssetInfo, PairInfo, PairType, TrioInfo};
+use white_whale_std::pool_network::pair::PoolFee;
+use white_whale_std::pool_network::trio::PoolFee as TrioPoolFee;
+
+pub const START_TIME_S: u64 = 1_700_000_000;
+pub const DAY_NS: u64 = 86_400_000_000_000;
+
+pub fn dec(atomics: u128) -> Decimal {
+    Decimal::from_atomics(atomics, 18).unwrap()
+}
+
+pub fn pool_fee(f: [u128; 3]) -> PoolFee {
+    PoolFee {
+        protocol_fee: Fee { share: dec(f[0]) },
+        swap_fee: Fee { share: dec(f[1]) },
+        burn_fee: Fee { share: dec(f[2]) },
+    }
+}
+
+pub fn trio_fee(f: [u128; 3]) -> TrioPoolFee {
+    TrioPoolFee {
+        protocol_fee: Fee { share: dec(f[0]) },
+        swap_fee: Fee { share: dec(f[1]) },
+        burn_fee: Fee { share: dec(f[2]) },
+    }
+}
+
+/// (protocol, flash_loan, burn)
+pub fn vault_fee(f: [u128; 3]) -> VaultFee {
+    VaultFee {
+        protocol_fee: Fee { share: dec(f[0]) },
+        flash_loan_fee: Fee { share: dec(f[1]) },
+        burn_fee: Fee { share: dec(f[2]) },
+    }
+}
+
+pub fn native(denom: &str) -> AssetInfo {
+    AssetInfo::NativeToken {
+        denom: denom.to_string(),
+    }
+}
+
+pub fn token(addr: &Addr) -> AssetInfo {
+    AssetInfo::Token {
+        contract_addr: addr.to_string(),
+    }
+}
+
+pub fn asset(info: &AssetInfo, amount: u128) -> Asset {
+    Asset {
+        info: info.clone(),
+        amount: Uint128::new(amount),
+    }
+}
+
+#[derive(Clone, Debug)]
+pub struct CodeIds {
+    pub token: u64,
+    pub pair: u64,
+    pub trio: u64,
+    pub factory: u64,
+    pub router: u64,
+    pub frontend_helper: u64,
+    pub incentive: u64,
+    pub incentive_factory: u64,
+    pub vault: u64,
+    pub vault_factory: u64,
+    pub vault_router: u64,
+    pub fee_collector: u64,
+    pub fee_distributor: u64,
+    pub fee_distributor_mock: u64,
+    pub whale_lair: u64,
+    pub epoch_manager: u64,
+}
+
+fn boxed<C: Contract<Empty> + 'static>(c: C) -> Box<dyn Contract<Empty>> {
+    Box::new(c)
+}
+
+pub fn store_all(app: &mut App) -> CodeIds {
+    CodeIds {
+        token: app.store_code(boxed(ContractWrapper::new(
+            terraswap_token::contract::execute,
+            terraswap_token::contract::instantiate,
+            terraswap_token::contract::query,
+        ))),
+        pair: app.store_code(boxed(
+            ContractWrapper::new(
+                terraswap_pair::contract::execute,
+                terraswap_pair::contract::instantiate,
+                terraswap_pair::contract::query,
+            )
+            .with_reply(terraswap_pair::contract::reply)
+            .with_migrate(terraswap_pair::contract::migrate),
+        )),
+        trio: app.store_code(boxed(
+            ContractWrapper::new(
+                stableswap_3pool::contract::execute,
+                stableswap_3pool::contract::instantiate,
+                stableswap_3pool::contract::query,
+            )
+            .with_reply(stableswap_3pool::contract::reply)
+            .with_migrate(stableswap_3pool::contract::migrate),
+        )),
+        factory: app.store_code(boxed(
+            ContractWrapper::new(
+                terraswap_factory::contract::execute,
+                terraswap_factory::contract::instantiate,
+                terraswap_factory::contract::query,
+            )
+            .with_reply(terraswap_factory::contract::reply)
+            .with_migrate(terraswap_factory::contract::migrate),
+        )),
+        router: app.store_code(boxed(
+            ContractWrapper::new(
+                terraswap_router::contract::execute,
+                terraswap_router::contract::instantiate,
+                terraswap_router::contract::query,
+            )
+            .with_migrate(terraswap_router::contract::migrate),
+        )),
+        frontend_helper: app.store_code(boxed(
+            ContractWrapper::new(
+                frontend_helper::contract::execute,
+                frontend_helper::contract::instantiate,
+                frontend_helper::contract::query,
+            )
+            .with_reply(frontend_helper::contract::reply)
+            .with_migrate(frontend_helper::contract::migrate),
+        )),
+        incentive: app.store_code(boxed(
+            ContractWrapper::new(
+                incentive::contract::execute,
+                incentive::contract::instantiate,
+                incentive::contract::query,
+            )
+            .with_migrate(incentive::contract::migrate),
+        )),
+        incentive_factory: app.store_code(boxed(
+            ContractWrapper::new(
+                incentive_factory::contract::execute,
+                incentive_factory::contract::instantiate,
+                incentive_factory::contract::query,
+            )
+            .with_reply(incentive_factory::contract::reply)
+            .with_migrate(incentive_factory::contract::migrate),
+        )),
+        vault: app.store_code(boxed(
+            ContractWrapper::new(
+                vault::contract::execute,
+                vault::contract::instantiate,
+                vault::contract::query,
+            )
+            .with_reply(vault::reply::reply)
+            .with_migrate(vault::contract::migrate),
+        )),
+        vault_factory: app.store_code(boxed(
+            ContractWrapper::new(
+                vault_factory::contract::execute,
+                vault_factory::contract::instantiate,
+                vault_factory::contract::query,
+            )
+            .with_reply(vault_factory::reply::reply)
+            .with_migrate(vault_factory::contract::migrate),
+        )),
+        vault_router: app.store_code(boxed(
+            ContractWrapper::new(
+                vault_router::contract::execute,
+                vault_router::contract::instantiate,
+                vault_router::contract::query,
+            )
+            .with_migrate(vault_router::contract::migrate),
+        )),
+        fee_collector: app.store_code(boxed(
+            ContractWrapper::new(
+                fee_collector::contract::execute,
+                fee_collector::contract::instantiate,
+                fee_collector::contract::query,
+            )
+            .with_reply(fee_collector::contract::reply)
+            .with_migrate(fee_collector::contract::migrate),
+        )),
+        fee_distributor: app.store_code(boxed(
+            ContractWrapper::new(
+                fee_distributor::contract::execute,
+                fee_distributor::contract::instantiate,
+                fee_distributor::contract::query,
+            )
+            .with_reply(fee_distributor::contract::reply)
+            .with_migrate(fee_distributor::contract::migrate),
+        )),
+        fee_distributor_mock: app.store_code(boxed(ContractWrapper::new(
+            fee_distributor_mock::contract::execute,
+            fee_distributor_mock::contract::instantiate,
+            fee_distributor_mock::contract::query,
+        ))),
+        whale_lair: app.store_code(boxed(
+            ContractWrapper::new(
+                whale_lair::contract::execute,
+                whale_lair::contract::instantiate,
+                whale_lair::contract::query,
+            )
+            .with_migrate(whale_lair::contract::migrate),
+        )),
+        epoch_manager: app.store_code(boxed(
+            ContractWrapper::new(
+                epoch_manager::contract::execute,
+                epoch_manager::contract::instantiate,
+                epoch_manager::contract::query,
+            )
+            .with_migrate(epoch_manager::contract::migrate),
+        )),
+    }
+}
+
+#[derive(Clone, Debug, PartialEq, Eq)]
+pub struct Snapshot {
+    pub storage: BTreeMap<String, Vec<(Vec<u8>, Vec<u8>)>>,
+    pub bank: BTreeMap<(String, String), u128>,
+}
+
+impl Snapshot {
+    pub fn diff(&self, other: &Snapshot) -> String {
+        let mut out = vec![];
+        for (k, v) in &self.storage {
+            if other.storage.get(k) != Some(v) {
+                out.push(format!("storage of {k} differs"));
+            }
+        }
+        for (k, v) in &self.bank {
+            let o = other.bank.get(k).copied().unwrap_or(0);
+            if o != *v {
+                out.push(format!("bank {}:{} {} -> {}", k.0, k.1, v, o));
+            }
+        }
+        for (k, v) in &other.bank {
+            if !self.bank.contains_key(k) && *v != 0 {
+                out.push(format!("bank {}:{} 0 -> {}", k.0, k.1, v));
+            }
+        }
+        out.join("; ")
+    }
+}
+
+pub struct World {
+    pub app: App,
+    pub code: CodeIds,
+    pub owner: Addr,
+    pub users: Vec<Addr>,
+    /// every contract instantiated in this world (label, address)
+    pub contracts: Vec<(String, Addr)>,
+    /// every plain account the world knows
+    pub accounts: Vec<Addr>,
+    pub denoms: Vec<String>,
+    // optional components
+    pub fee_collector: Option<Addr>,
+    pub factory: Option<Addr>,
+    pub router: Option<Addr>,
+    pub vault_factory: Option<Addr>,
+    pub vault_router: Option<Addr>,
+    pub whale_lair: Option<Addr>,
+    pub fee_distributor: Option<Addr>,
+    pub incentive_factory: Option<Addr>,
+    pub frontend_helper: Option<Addr>,
+}
+
+pub const FUND: u128 = 1u128 << 126;
+
+pub type ExecResult = Result<AppResponse, String>;
+
+impl World {
+    /// A world with `owner`, the given users, each funded with `FUND` of every denom.
+    pub fn new(user_names: &[&str], denoms: &[&str]) -> World {
+        Self::new_with_fund(user_names, denoms, FUND)
+    }
+
+    pub fn new_with_fund(user_names: &[&str], denoms: &[&str], fund: u128) -> World {
+        let owner = Addr::unchecked("owner");
+        let users: Vec<Addr> = user_names.iter().map(|n| Addr::unchecked(*n)).collect();
+        let mut accounts = vec![owner.clone()];
+        accounts.extend(users.iter().cloned());
+        let coins: Vec<Coin> = denoms.iter().map(|d| coin(fund, *d)).collect();
+        let init = accounts.clone();
+        let mut app = AppBuilder::new()
+            .with_bank(BankKeeper::new())
+            .build(|router, _api, storage| {
+                for a in &init {
+                    if !coins.is_empty() {
+                        router.bank.init_balance(storage, a, coins.clone()).unwrap();
+                    }
+                }
+            });
+        app.set_block(BlockInfo {
+            height: 1_000,
+            time: Timestamp::from_seconds(START_TIME_S),
+            chain_id: "verif-1".to_string(),
+        });
+        let code = store_all(&mut app);
+        World {
+            app,
+            code,
+            owner,
+            users,
+            contracts: vec![],
+            accounts,
+            denoms: denoms.iter().map(|d| d.to_string()).collect(),
+            fee_collector: None,
+            factory: None,
+            router: None,
+            vault_factory: None,
+            vault_router: None,
+            whale_lair: None,
+            fee_distributor: None,
+            incentive_factory: None,
+            frontend_helper: None,
+        }
+    }
+
+    pub fn add_account(&mut self, name: &str) -> Addr {
+        let a = Addr::unchecked(name);
+        if !self.accounts.contains(&a) {
+            self.accounts.push(a.clone());
+        }
+        a
+    }
+
+    pub fn register(&mut self, label: &str, addr: &Addr) {
+        if !self.contracts.iter().any(|(_, a)| a == addr) {
+            self.contracts.push((label.to_string(), addr.clone()));
+        }
+    }
+
+    pub fn instantiate<T: Serialize>(
+        &mut self,
+        code_id: u64,
+        sender: &Addr,
+        msg: &T,
+        label: &str,
+        admin: Option<String>,
+    ) -> Result<Addr, String> {
+        let r = catch_unwind(AssertUnwindSafe(|| {
+            self.app
+                .instantiate_contract(code_id, sender.clone(), msg, &[], label, admin)
+        }));
+        match r {
+            Ok(Ok(a)) => {
+                self.register(label, &a);
+                Ok(a)
+            }
+            Ok(Err(e)) => Err(format!("{:#}", e)),
+            Err(p) => Err(format!("panic: {}", crate::engine::panic_msg(&p))),
+        }
+    }
+
+    /// Executes a message; a contract panic is a rejection (Wasm trap).
+    pub fn exec<T: Serialize + std::fmt::Debug>(
+        &mut self,
+        sender: &Addr,
+        contract: &Addr,
+        msg: &T,
+        funds: &[Coin],
+    ) -> ExecResult {
+        let r = catch_unwind(AssertUnwindSafe(|| {
+            self.app
+                .execute_contract(sender.clone(), contract.clone(), msg, funds)
+        }));
+        match r {
+            Ok(Ok(resp)) => Ok(resp),
+            Ok(Err(e)) => Err(format!("{:#}", e)),
+            Err(p) => Err(format!("panic: {}", crate::engine::panic_msg(&p))),
+        }
+    }
+
+    pub fn query<T: DeserializeOwned, M: Serialize>(&self, contract: &Addr, msg: &M) -> Result<T, String> {
+        let r = catch_unwind(AssertUnwindSafe(|| {
+            self.app.wrap().query_wasm_smart::<T>(contract.to_string(), msg)
+        }));
+        match r {
+            Ok(Ok(v)) => Ok(v),
+            Ok(Err(e)) => Err(e.to_string()),
+            Err(p) => Err(format!("panic: {}", crate::engine::panic_msg(&p))),
+        }
+    }
+
+    pub fn raw(&self, contract: &Addr, key: &[u8]) -> Option<Vec<u8>> {
+        self.app
+            .wrap()
+            .query_wasm_raw(contract.to_string(), key.to_vec())
+            .ok()
+            .flatten()
+    }
+
+    pub fn now(&self) -> Timestamp {
+        self.app.block_info().time
+    }
+
+    pub fn advance(&mut self, dt_ns: u64, dheight: u64) {
+        self.app.update_block(|b| {
+            b.time = b.time.plus_nanos(dt_ns);
+            b.height += dheight;
+        });
+    }
+
+    // ---------------- balances ----------------
+
+    pub fn bank(&self, addr: &Addr, denom: &str) -> u128 {
+        self.app
+            .wrap()
+            .query_balance(addr.to_string(), denom)
+            .map(|c| c.amount.u128())
+            .unwrap_or(0)
+    }
+
+    pub fn cw20_balance(&self, token: &Addr, addr: &Addr) -> u128 {
+        let r: Result<cw20::BalanceResponse, _> = self.app.wrap().query_wasm_smart(
+            token.to_string(),
+            &cw20::Cw20QueryMsg::Balance {
+                address: addr.to_string(),
+            },
+        );
+        r.map(|b| b.balance.u128()).unwrap_or(0)
+    }
+
+    pub fn cw20_supply(&self, token: &Addr) -> u128 {
+        let r: Result<cw20::TokenInfoResponse, _> = self
+            .app
+            .wrap()
+            .query_wasm_smart(token.to_string(), &cw20::Cw20QueryMsg::TokenInfo {});
+        r.map(|b| b.total_supply.u128()).unwrap_or(0)
+    }
+
+    pub fn bal(&self, info: &AssetInfo, addr: &Addr) -> u128 {
+        match info {
+            AssetInfo::NativeToken { denom } => self.bank(addr, denom),
+            AssetInfo::Token { contract_addr } => {
+                self.cw20_balance(&Addr::unchecked(contract_addr), addr)
+            }
+        }
+    }
+
+    /// Closed-world circulating supply: cw20 total_supply, or the sum over every known account
+    /// and contract for a native denom.
+    pub fn supply(&self, info: &AssetInfo) -> u128 {
+        match info {
+            AssetInfo::Token { contract_addr } => self.cw20_supply(&Addr::unchecked(contract_addr)),
+            AssetInfo::NativeToken { denom } => {
+                let mut s = 0u128;
+                for a in self.accounts.iter().chain(self.contracts.iter().map(|(_, a)| a)) {
+                    s += self.bank(a, denom);
+                }
+                s
+            }
+        }
+    }
+
+    pub fn snapshot(&self) -> Snapshot {
+        let mut storage = BTreeMap::new();
+        for (label, addr) in &self.contracts {
+            let dump = self.app.dump_wasm_raw(addr);
+            storage.insert(format!("{label}@{addr}"), dump);
+        }
+        let mut bank = BTreeMap::new();
+        for a in self.accounts.iter().chain(self.contracts.iter().map(|(_, a)| a)) {
+            if let Ok(all) = self.app.wrap().query_all_balances(a.to_string()) {
+                for c in all {
+                    bank.insert((a.to_string(), c.denom), c.amount.u128());
+                }
+            }
+        }
+        Snapshot { storage, bank }
+    }
+
+    // ---------------- cw20 ----------------
+
+    /// Creates a cw20 with `FUND` minted to every user and the owner; the owner is the minter.
+    pub fn create_cw20(&mut self, symbol: &str, decimals: u8) -> Addr {
+        self.create_cw20_with_fund(symbol, decimals, FUND / 64)
+    }
+
+    pub fn create_cw20_with_fund(&mut self, symbol: &str, decimals: u8, fund: u128) -> Addr {
+        let balances: Vec<Cw20Coin> = self
+            .accounts
+            .iter()
+            .map(|a| Cw20Coin {
+                address: a.to_string(),
+                amount: Uint128::new(fund),
+            })
+            .collect();
+        let msg = white_whale_std::pool_network::token::InstantiateMsg {
+            name: format!("{symbol} token"),
+            symbol: symbol.to_string(),
+            decimals,
+            initial_balances: balances,
+            mint: Some(MinterResponse {
+                minter: self.owner.to_string(),
+                cap: None,
+            }),
+        };
+        let owner = self.owner.clone();
+        self.instantiate(self.code.token, &owner, &msg, &format!("cw20-{symbol}"), None)
+            .expect("cw20 instantiate")
+    }
+
+    pub fn increase_allowance(&mut self, owner: &Addr, token: &Addr, spender: &Addr, amount: u128) {
+        let _ = self.exec(
+            owner,
+            token,
+            &Cw20ExecuteMsg::IncreaseAllowance {
+                spender: spender.to_string(),
+                amount: Uint128::new(amount),
+                expires: None,
+            },
+            &[],
+        );
+    }
+
+    pub fn cw20_send<T: Serialize>(
+        &mut self,
+        sender: &Addr,
+        token: &Addr,
+        contract: &Addr,
+        amount: u128,
+        hook: &T,
+    ) -> ExecResult {
+        self.exec(
+            sender,
+            token,
+            &Cw20ExecuteMsg::Send {
+                contract: contract.to_string(),
+                amount: Uint128::new(amount),
+                msg: to_json_binary(hook).unwrap(),
+            },
+            &[],
+        )
+    }
+
+    /// Plain transfer of an asset (donation).
+    pub fn transfer(&mut self, from: &Addr, to: &Addr, info: &AssetInfo, amount: u128) -> ExecResult {
+        match info {
+            AssetInfo::NativeToken { denom } => {
+                let r = catch_unwind(AssertUnwindSafe(|| {
+                    self.app.send_tokens(from.clone(), to.clone(), &[coin(amount, denom)])
+                }));
+                match r {
+                    Ok(Ok(resp)) => Ok(resp),
+                    Ok(Err(e)) => Err(format!("{:#}", e)),
+                    Err(_) => Err("panic".into()),
+                }
+            }
+            AssetInfo::Token { contract_addr } => self.exec(
+                from,
+                &Addr::unchecked(contract_addr),
+                &Cw20ExecuteMsg::Transfer {
+                    recipient: to.to_string(),
+                    amount: Uint128::new(amount),
+                },
+                &[],
+            ),
+        }
+    }
+
+    // ---------------- pool network ----------------
+
+    pub fn setup_pool_network(&mut self) {
+        let owner = self.owner.clone();
+        let collector = self
+            .instantiate(
+                self.code.fee_collector,
+                &owner,
+                &white_whale_std::fee_collector::InstantiateMsg {},
+                "fee_collector",
+                None,
+            )
+            .expect("fee collector");
+        let factory = self
+            .instantiate(
+                self.code.factory,
+                &owner,
+                &white_whale_std::pool_network::factory::InstantiateMsg {
+                    pair_code_id: self.code.pair,
+                    trio_code_id: self.code.trio,
+                    token_code_id: self.code.token,
+                    fee_collector_addr: collector.to_string(),
+                },
+                "pool_factory",
+                None,
+            )
+            .expect("factory");
+        // the router's route management is authorised by the wasm admin
+        let router = self
+            .instantiate(
+                self.code.router,
+                &owner,
+                &white_whale_std::pool_network::router::InstantiateMsg {
+                    terraswap_factory: factory.to_string(),
+                },
+                "pool_router",
+                Some(owner.to_string()),
+            )
+            .expect("router");
+        self.fee_collector = Some(collector);
+        self.factory = Some(factory);
+        self.router = Some(router);
+    }
+
+    pub fn register_native_decimals(&mut self, denom: &str, decimals: u8) {
+        let owner = self.owner.clone();
+        let factory = self.factory.clone().unwrap();
+        self.exec(
+            &owner,
+            &factory,
+            &white_whale_std::pool_network::factory::ExecuteMsg::AddNativeTokenDecimals {
+                denom: denom.to_string(),
+                decimals,
+            },
+            &[],
+        )
+        .expect("add native decimals");
+    }
+
+    pub fn create_pair(
+        &mut self,
+        infos: [AssetInfo; 2],
+        fees: PoolFee,
+        pair_type: PairType,
+    ) -> Result<PairInfo, String> {
+        let owner = self.owner.clone();
+        let factory = self.factory.clone().unwrap();
+        self.exec(
+            &owner,
+            &factory,
+            &white_whale_std::pool_network::factory::ExecuteMsg::CreatePair {
+                asset_infos: infos.clone(),
+                pool_fees: fees,
+                pair_type,
+                token_factory_lp: false,
+            },
+            &[],
+        )?;
+        let info: PairInfo = self.query(
+            &factory,
+            &white_whale_std::pool_network::factory::QueryMsg::Pair { asset_infos: infos },
+        )?;
+        let pair = Addr::unchecked(info.contract_addr.clone());
+        let n = self.contracts.len();
+        self.register(&format!("pair{n}"), &pair);
+        if let AssetInfo::Token { contract_addr } = &info.liquidity_token {
+            self.register(&format!("lp{n}"), &Addr::unchecked(contract_addr));
+        }
+        Ok(info)
+    }
+
+    pub fn create_trio(
+        &mut self,
+        infos: [AssetInfo; 3],
+        fees: TrioPoolFee,
+        amp: u64,
+    ) -> Result<TrioInfo, String> {
+        let owner = self.owner.clone();
+        let factory = self.factory.clone().unwrap();
+        self.exec(
+            &owner,
+            &factory,
+            &white_whale_std::pool_network::factory::ExecuteMsg::CreateTrio {
+                asset_infos: infos.clone(),
+                pool_fees: fees,
+                amp_factor: amp,
+                token_factory_lp: false,
+            },
+            &[],
+        )?;
+        let info: TrioInfo = self.query(
+            &factory,
+            &white_whale_std::pool_network::factory::QueryMsg::Trio { asset_infos: infos },
+        )?;
+        let trio = Addr::unchecked(info.contract_addr.clone());
+        let n = self.contracts.len();
+        self.register(&format!("trio{n}"), &trio);
+        if let AssetInfo::Token { contract_addr } = &info.liquidity_token {
+            self.register(&format!("lp{n}"), &Addr::unchecked(contract_addr));
+        }
+        Ok(info)
+    }
+
+    // ---------------- vault network ----------------
+
+    pub fn setup_vault_network(&mut self) {
+        let owner = self.owner.clone();
+        if self.fee_collector.is_none() {
+            let collector = self
+                .instantiate(
+                    self.code.fee_collector,
+                    &owner,
+                    &white_whale_std::fee_collector::InstantiateMsg {},
+                    "fee_collector",
+                    None,
+                )
+                .expect("fee collector");
+            self.fee_collector = Some(collector);
+        }
+        let collector = self.fee_collector.clone().unwrap();
+        let vf = self
+            .instantiate(
+                self.code.vault_factory,
+                &owner,
+                &white_whale_std::vault_network::vault_factory::InstantiateMsg {
+                    owner: owner.to_string(),
+                    vault_id: self.code.vault,
+                    token_id: self.code.token,
+                    fee_collector_addr: collector.to_string(),
+                },
+                "vault_factory",
+                None,
+            )
+            .expect("vault factory");
+        let vr = self
+            .instantiate(
+                self.code.vault_router,
+                &owner,
+                &white_whale_std::vault_network::vault_router::InstantiateMsg {
+                    owner: owner.to_string(),
+                    vault_factory_addr: vf.to_string(),
+                },
+                "vault_router",
+                None,
+            )
+            .expect("vault router");
+        self.vault_factory = Some(vf);
+        self.vault_router = Some(vr);
+    }
+
+    /// Creates a vault through the vault factory; returns (vault, lp token).
+    pub fn create_vault(&mut self, info: &AssetInfo, fees: VaultFee) -> Result<(Addr, Addr), String> {
+        let owner = self.owner.clone();
+        let vf = self.vault_factory.clone().unwrap();
+        self.exec(
+            &owner,
+            &vf,
+            &white_whale_std::vault_network::vault_factory::ExecuteMsg::CreateVault {
+                asset_info: info.clone(),
+                fees,
+                token_factory_lp: false,
+            },
+            &[],
+        )?;
+        let v: Option<String> = self.query(
+            &vf,
+            &white_whale_std::vault_network::vault_factory::QueryMsg::Vault {
+                asset_info: info.clone(),
+            },
+        )?;
+        let vault = Addr::unchecked(v.ok_or("vault not registered")?);
+        let cfg: white_whale_std::vault_network::vault::Config =
+            self.query(&vault, &white_whale_std::vault_network::vault::QueryMsg::Config {})?;
+        let lp = match cfg.lp_asset {
+            AssetInfo::Token { contract_addr } => Addr::unchecked(contract_addr),
+            AssetInfo::NativeToken { denom } => return Err(format!("native lp {denom}")),
+        };
+        let n = self.contracts.len();
+        self.register(&format!("vault{n}"), &vault);
+        self.register(&format!("vault_lp{n}"), &lp);
+        Ok((vault, lp))
+    }
+
+    // ---------------- fee hub ----------------
+
+    /// whale lair + fee distributor, wired to the collector / factories already present.
+    pub fn setup_fee_hub(
+        &mut self,
+        bonding_denoms: &[&str],
+        unbonding_period_ns: u64,
+        growth_rate: Decimal,
+        grace_period: u64,
+        epoch_duration_ns: u64,
+        genesis_ns: u64,
+        distribution_asset: AssetInfo,
+    ) -> Result<(), String> {
+        let owner = self.owner.clone();
+        let collector = self.fee_collector.clone().expect("collector first");
+        let lair = self.instantiate(
+            self.code.whale_lair,
+            &owner,
+            &white_whale_std::whale_lair::InstantiateMsg {
+                unbonding_period: Uint64::new(unbonding_period_ns),
+                growth_rate,
+                bonding_assets: bonding_denoms.iter().map(|d| native(d)).collect(),
+            },
+            "whale_lair",
+            None,
+        )?;
+        let dist = self.instantiate(
+            self.code.fee_distributor,
+            &owner,
+            &white_whale_std::fee_distributor::InstantiateMsg {
+                bonding_contract_addr: lair.to_string(),
+                fee_collector_addr: collector.to_string(),
+                grace_period: Uint64::new(grace_period),
+                epoch_config: EpochConfig {
+                    duration: Uint64::new(epoch_duration_ns),
+                    genesis_epoch: Uint64::new(genesis_ns),
+                },
+                distribution_asset,
+            },
+            "fee_distributor",
+            None,
+        )?;
+        self.exec(
+            &owner,
+            &lair,
+            &white_whale_std::whale_lair::ExecuteMsg::UpdateConfig {
+                owner: None,
+                unbonding_period: None,
+                growth_rate: None,
+                fee_distributor_addr: Some(dist.to_string()),
+            },
+            &[],
+        )?;
+        self.exec(
+            &owner,
+            &collector,
+            &white_whale_std::fee_collector::ExecuteMsg::UpdateConfig {
+                owner: None,
+                pool_router: self.router.as_ref().map(|a| a.to_string()),
+                fee_distributor: Some(dist.to_string()),
+                pool_factory: self.factory.as_ref().map(|a| a.to_string()),
+                vault_factory: self.vault_factory.as_ref().map(|a| a.to_string()),
+                take_rate: None,
+                take_rate_dao_address: None,
+                is_take_rate_active: None,
+            },
+            &[],
+        )?;
+        self.whale_lair = Some(lair);
+        self.fee_distributor = Some(dist);
+        Ok(())
+    }
+}
+
+pub fn bin<T: Serialize>(t: &T) -> Binary {
+    to_json_binary(t).unwrap()
+}
+
+/// Extracts the first value of attribute `key` of wasm events whose `_contract_addr`/`_contract_address` is `contract`.
+pub fn wasm_attr(resp: &AppResponse, contract: &Addr, key: &str) -> Option<String> {
+    for ev in &resp.events {
+        if ev.ty != "wasm" {
+            continue;
+        }
+        let from = ev
+            .attributes
+            .iter()
+            .any(|a| (a.key == "_contract_addr" || a.key == "_contract_address") && a.value == contract.as_str());
+        if !from {
+            continue;
+        }
+        for a in &ev.attributes {
+            if a.key == key {
+                return Some(a.value.clone());
+            }
+        }
+    }
+    None
+}
